@@ -50,6 +50,7 @@ spec_decode = B.spec_decode
 equal = B.equal
 tally = B.tally
 shrink_candidates = B.shrink_candidates
+normalize = K.normalize_domain
 
 
 def nontrivial(c, r):
